@@ -170,6 +170,15 @@ struct Sh {
     yielder: Option<Arc<dyn Fn(&'static str) + Send + Sync>>,
     sender: Mutex<Option<Arc<Sender<Chan>>>>,
     actors: Mutex<Vec<Actor>>,
+    /// thread mode with a clock-reading cost: how far the clock the code under test reads is ahead of the virtual
+    /// clock the harness measures with (nanoseconds); "gave up early" rules allow for it
+    clock_ahead_ns: std::sync::atomic::AtomicU64,
+}
+
+impl Sh {
+    fn clock_ahead(&self) -> Duration {
+        Duration::from_nanos(self.clock_ahead_ns.load(std::sync::atomic::Ordering::Relaxed))
+    }
 }
 
 type ShRef = Arc<Sh>;
@@ -712,7 +721,7 @@ fn finish_async_send(sh: &Sh, a: usize, item: Item, started: Duration, timeout: 
                             format!("async send({item}) failed on an open channel and handed back {back:?}"),
                         );
                     }
-                    if waited < timeout {
+                    if waited + sh.clock_ahead() < timeout {
                         w.out.violate(
                             "C09",
                             "send_gave_up_early",
@@ -1418,6 +1427,7 @@ impl Engine for ChanInline {
             yielder: None,
             sender: Mutex::new(Some(Arc::new(sender))),
             actors: Mutex::new(actors),
+            clock_ahead_ns: std::sync::atomic::AtomicU64::new(0),
         });
         w(&sh, |w| {
             w.log(format!(
